@@ -71,13 +71,19 @@ type Run struct {
 	Taints    map[uint64]string // UP SEID -> first known-finding trigger applied to the session
 	sharedTaint string
 	noTaintFallback bool
+	soft     int
+	softNext bool
 	returned   map[int]*bool
 }
 
 func (r *Run) Violate(prop, sig, format string, a ...any) {
 	key := prop + "|" + sig
-	if r.vseen[key] || (r.FirstOnly && len(r.Violations) > 0) {
+	if r.vseen[key] || (r.FirstOnly && r.Hard() > 0) {
 		return
+	}
+	if r.softNext {
+		r.soft++
+		r.softNext = false
 	}
 	if r.Sim.Exhausted && !strings.HasPrefix(sig, "panic:") && !strings.HasPrefix(sig, "fatal-exit:") {
 		// the run hit its step budget: whatever has not happened yet may still
@@ -91,6 +97,14 @@ func (r *Run) Violate(prop, sig, format string, a ...any) {
 	r.Sim.Logf("VIOLATION %s %s", prop, sig)
 	r.Op("VIOLATION %s %s: %s", prop, sig, msg)
 }
+
+// Hard counts the violations that end the judging of a FirstOnly run. A soft
+// violation (Soft() before Violate) is reported like any other but lets the run
+// go on: used for a listed finding whose consequences stay local (stale meter
+// cells after a restart), so that the rest of the run is still judged.
+func (r *Run) Hard() int { return len(r.Violations) - r.soft }
+
+func (r *Run) Soft() { r.softNext = true }
 
 func (r *Run) Op(format string, a ...any) {
 	r.Ops = append(r.Ops, fmt.Sprintf("t=%.6fs ", float64(r.Sim.NowNS())/1e9)+fmt.Sprintf(format, a...))
